@@ -49,12 +49,32 @@ func itemShapes(c *Counter) []Shaped {
 		mk("list1:obj", ap.ItemCollection{&ap.Object{ID: c.ID("o"), Type: ap.NoteType}}),
 		mk("list2", ap.ItemCollection{c.ID("i"), &ap.Object{ID: c.ID("o"), Type: ap.NoteType}}),
 		mk("list3:link", ap.ItemCollection{c.ID("i"), &ap.Link{ID: c.ID("l"), Type: ap.LinkType, Href: c.ID("h")}, &ap.Actor{ID: c.ID("p"), Type: ap.GroupType}}),
+		mk("list-one-of-each-type", oneOfEach(c)),
 	}
+}
+
+// oneOfEach builds a list holding one small value of every struct type (every list position must cope with every type).
+func oneOfEach(c *Counter) ap.ItemCollection {
+	var l ap.ItemCollection
+	for _, st := range StructTypes {
+		p := reflect.New(st)
+		p.Elem().FieldByName("ID").SetString(string(c.ID("each-" + st.Name())))
+		p.Elem().FieldByName("Type").SetString(string(DefaultType[st.Name()]))
+		if f := p.Elem().FieldByName("Name"); f.IsValid() {
+			f.Set(reflect.ValueOf(ap.DefaultNaturalLanguageValue("txt-" + st.Name())))
+		}
+		if st.Name() == "Link" {
+			p.Elem().FieldByName("Href").SetString(string(c.ID("href")))
+		}
+		l = append(l, p.Interface().(ap.Item))
+	}
+	return l
 }
 
 func listShapes(c *Counter) []Shaped {
 	mk := func(n string, it ap.ItemCollection) Shaped { return Shaped{n, reflect.ValueOf(it)} }
 	return []Shaped{
+		mk("list-one-of-each-type", oneOfEach(c)),
 		mk("list1:iri", ap.ItemCollection{c.ID("i")}),
 		mk("list1:obj", ap.ItemCollection{&ap.Object{ID: c.ID("o"), Type: ap.NoteType}}),
 		mk("list1:actor", ap.ItemCollection{&ap.Actor{ID: c.ID("p"), Type: ap.PersonType}}),
@@ -217,7 +237,7 @@ func Everything(st reflect.Type, gob bool) ap.Item {
 		}
 		pick := shapes[0]
 		if f.Kind == KItems {
-			pick = shapes[4]
+			pick = shapes[5]
 		}
 		p.Elem().Field(f.Index).Set(pick.V)
 	}
